@@ -144,11 +144,17 @@ let handle (line : Stdlib.String.t) : Stdlib.String.t =
       let t = text_of_bytes (unhex f.(1)) in
       let n = int_of_string f.(2) in
       let q i = n_of_int (int_of_string f.(i)) in
-      let sp = List.init n (fun i ->
+      (* through Display.display: the whole report at once, as the implementation formats it *)
+      let entries = List.init n (fun i ->
         let b = 3 + 4 * i in
-        let (s, e) = span_of t (q b) (q (b + 1)) (q (b + 2)) (q (b + 3)) in
-        Printf.sprintf "%d:%d" (int_of_n s) (int_of_n e)) in
-      Printf.sprintf "spans %s hdr=1 lbls=%d" (Stdlib.String.concat "," sp) n
+        { re_entry = { e_kind = KWildcard; e_line_start = q b; e_actual = coq_string "ACTUAL"; e_expected = None };
+          re_col_start = q (b + 1); re_line_end = q (b + 2); re_col_end = q (b + 3) }) in
+      (match display false (coq_string "span_src.rs") (Some t) entries with
+       | RSnippet (_, _, _, anns) ->
+           let sp = List.map (fun a -> Printf.sprintf "%d:%d" (int_of_n a.an_start) (int_of_n a.an_end)) anns in
+           Printf.sprintf "spans %s hdr=1 lbls=%d" (Stdlib.String.concat "," sp) (List.length anns)
+       | RNothing -> "spans  hdr=0 lbls=0"
+       | RFallback _ -> "fallback")
   | "fsclear" -> Hashtbl.reset files; "ok"
   | "fs" -> Hashtbl.replace files (unhex f.(1)) (); "ok"
   | "abspath" | "abspath_old" ->
